@@ -150,3 +150,19 @@ def water_motion(rng, cfg_prefix):
           "HarmonicLeaf": {"number_event_handlers": 3}, "RepulsiveLeaf": {"number_event_handlers": 9 * n},
           "RepulsiveRoot": {"number_event_handlers": 9 * n}}
     return {"ini": cfg_prefix + "dipoles/dipole_motion.ini", "overrides": ov}
+
+
+def activation_variant(root, cfg_prefix):
+    """the shipped dipole_motion.ini with the end-of-chain tagger switched off by the start-of-run event (whose lists the activator
+    applies twice) and switched on again by the first leaf-to-root mode switch: a legitimate wiring that exercises
+    deactivate -> deactivate -> activate on a tagger no shipped file ever deactivates"""
+    import configparser, os
+    cp = configparser.ConfigParser()
+    cp.read(os.path.join(root, "jellyfysh", cfg_prefix + "dipoles/dipole_motion.ini"))
+    def add(sec, key, tag):
+        cur = cp.get(sec, key) if cp.has_option(sec, key) else ""
+        return (cur.rstrip() + (", " if cur.strip() else "") + tag)
+    act = [t.strip() for t in cp.get("StartOfRun", "activate").split(",") if t.strip() and t.strip() != "end_of_chain"]
+    ov = {"StartOfRun": {"deactivate": add("StartOfRun", "deactivate", "end_of_chain"), "activate": ", ".join(act)},
+          "LeafToRoot": {"activate": add("LeafToRoot", "activate", "end_of_chain")}}
+    return {"ini": cfg_prefix + "dipoles/dipole_motion.ini", "overrides": ov}
